@@ -9,7 +9,7 @@ func init() {
 	facts["ConstsC16"] = constsFact("ConstsC16", "byte positions, shifts and bounds of ParseSIDFromBytes; separators of the DN functions (C16)", func(c *cx) {
 		ld := c.pkg("network/ldap")
 		f := ld.fn("ParseSIDFromBytes")
-		g := f.cond("sidBytes[0]", 0)
+		g := f.cond("len(sidBytes)", 0)
 		c.named("sid_guard", g, "minLen", "revIdx", "revision")
 		c.shapeOf("sid_guard_shape", g)
 		c.int1Of("sid_revIdx", f.assign("revisionLevel", -1))
@@ -21,8 +21,8 @@ func init() {
 		for i := 0; i < 6; i++ {
 			c.shapeOf(fmt.Sprintf("sid_auth%d_shape", i), f.assign("identifierAuthority", i))
 		}
-		c.named("sid_fits", f.cond("subAuthorityCount)", 0), "base", "stride")
-		c.shapeOf("sid_fits_shape", f.cond("subAuthorityCount)", 0))
+		c.named("sid_fits", f.cond("len(sidBytes)", 1), "base", "stride")
+		c.shapeOf("sid_fits_shape", f.cond("len(sidBytes)", 1))
 		s := f.assign("subAuthority", -1)
 		c.named("sid_sub", s, "base", "stride")
 		c.boolean("sid_sub_le", s, s.little())
